@@ -157,6 +157,23 @@ impl World {
             r is Err && final(self).faults@ > old(self).faults@ ==> !r->Err_0.not_found,
     { unimplemented!() }
 
+    // Path::metadata (stat(2): follows) and DirEntry::metadata (lstat(2)-like: does NOT follow), by receiver type
+    #[verifier::external_body]
+    pub fn path_metadata<T: MetaTarget>(&mut self, t: &T) -> (r: Result<Metadata, IoError>)
+        ensures final(self).proc@ == old(self).proc@, final(self).fs() == old(self).fs(), final(self).faults@ >= old(self).faults@,
+            r matches Ok(m) ==> final(self).faults@ == old(self).faults@ && (if t.mt_follows() {
+                    old(self).fs().resolves(t.mt_path()) && !m.link
+                    && m.dir == (old(self).fs().node(old(self).fs().follow(t.mt_path())->0) is Dir)
+                    && m.file == (old(self).fs().node(old(self).fs().follow(t.mt_path())->0) is File)
+                } else {
+                    old(self).fs().has(t.mt_path()) && m.dir == (old(self).fs().node(t.mt_path()) is Dir)
+                    && m.link == (old(self).fs().node(t.mt_path()) is Link) && m.file == (old(self).fs().node(t.mt_path()) is File)
+                }),
+            r is Err && final(self).faults@ == old(self).faults@ ==> r->Err_0.not_found
+                && (if t.mt_follows() { !old(self).fs().resolves(t.mt_path()) } else { !old(self).fs().has(t.mt_path()) }),
+            r is Err && final(self).faults@ > old(self).faults@ ==> !r->Err_0.not_found,
+    { unimplemented!() }
+
     // ---- chmod(2): follows a symlink in the last component; only the mode of the followed node changes
     #[verifier::external_body]
     pub fn fs_set_permissions<P: AsRef<Path>>(&mut self, p: P, perm: Permissions) -> (r: Result<(), IoError>)
@@ -276,6 +293,9 @@ impl World {
             r is Err && final(self).faults@ > old(self).faults@ ==> !r->Err_0.not_found,
     { unimplemented!() }
 }
+pub trait MetaTarget { spec fn mt_path(&self) -> PathV; spec fn mt_follows(&self) -> bool; }
+impl MetaTarget for PathBuf { open spec fn mt_path(&self) -> PathV { self@ } open spec fn mt_follows(&self) -> bool { true } }
+impl MetaTarget for DirEntry { open spec fn mt_path(&self) -> PathV { self.p@ } open spec fn mt_follows(&self) -> bool { false } }
 pub trait BytesLike: Sized { spec fn bytes(&self) -> Seq<u8>; }
 impl<'a> BytesLike for &'a str { open spec fn bytes(&self) -> Seq<u8> { utf8(self@) } }
 impl BytesLike for String { open spec fn bytes(&self) -> Seq<u8> { utf8(self@) } }
